@@ -12,7 +12,7 @@
    semantics answers SigNormal (behind the statement), SigBreak (at that END_LOOP) or SigReturn (behind the call). *)
 From Coq Require Import ZArith String List Bool Lia.
 From Bardolph Require Import Gen.Codes Lang.Value Lang.Instr Lang.Loader Lang.World Lang.Units0 Lang.Regs Lang.Devices Lang.Builtins
-  Lang.Machine Lang.Syntax Lang.Sem Lang.CodeGen Lang.Scope Lang.ExprCompile Lang.Simulation Lang.Simulation2 Lang.CallFrames Lang.LoopVars Lang.RangeLoop Lang.CountWith.
+  Lang.Machine Lang.Syntax Lang.Sem Lang.CodeGen Lang.Scope Lang.ExprCompile Lang.Simulation Lang.Simulation2 Lang.CallFrames Lang.LoopVars Lang.RangeLoop Lang.CountWith Lang.LightScan Lang.LightLoop.
 Open Scope string_scope.
 Open Scope list_scope.
 Import ListNotations.
@@ -48,6 +48,7 @@ Inductive SimpleB : bool -> bool -> stmt -> Prop :=
 | B_count inl inr n a : plain_rval mt n = true -> SimpleB true inr a -> SimpleB inl inr (SRepeat (LCount n) a)
 | B_infinite inl inr a : SimpleB true inr a -> SimpleB inl inr (SRepeat LInfinite a)
 | B_idx inl inr l v pre body : idx_form rt mt l v pre -> SimpleB true inr body -> SimpleB inl inr (SRepeat l body)
+| B_lights inl inr l x ov pre body : light_form rt mt l x ov pre -> SimpleB true false body -> SimpleB inl inr (SRepeat l body)
 with SimpleBL : bool -> bool -> list stmt -> Prop :=
 | BL_nil inl inr : SimpleBL inl inr []
 | BL_cons inl inr st r : SimpleB inl inr st -> SimpleBL inl inr r -> SimpleBL inl inr (st :: r).
@@ -150,6 +151,7 @@ Proof.
   - intros inl inr n a Hn _ IHa after. rewrite c_loop_after, c_count, !forallb_app, (IHa _), (c_rval_counter_no_routine rt mt n Hn). reflexivity.
   - intros inl inr a _ IHa after. rewrite c_loop_after, c_infinite, app_nil_r, !forallb_app, (IHa (Some 1)). reflexivity.
   - intros inl inr l v pre body Hform _ IHa after. destruct Hform as (Hcode & Hnr & _). rewrite c_loop_after, Hcode, !forallb_app, (IHa _), Hnr. reflexivity.
+  - intros inl inr l x ov pre body Hform _ IHa after. destruct Hform as (Hcode & Hnr & _). rewrite c_loop_after, Hcode, !forallb_app, (IHa _), Hnr, counter_post_no_routine. reflexivity.
   - intros inl inr after. reflexivity.
   - intros inl inr st r _ IHst _ IHr after. rewrite c_block_cons_after, forallb_app, (IHst _), (IHr after). reflexivity.
 Qed.
@@ -170,13 +172,16 @@ Definition returned (im : image) (ss : sstate) (s : mstate) (ss' : sstate) : Pro
   exists n s' evs, esteps n im s = Some (s', evs) /\ ret_state ss' s' /\ m_pc s' = ret + 1 /\ m_frames s' = F /\ m_stack s' = m_stack s /\
                    rev (s_trace ss') = rev (s_trace ss) ++ evs.
 
-Definition outcome (after : option Z) (im : image) (ss : sstate) (s : mstate) (sig : signal) (ss' : sstate) (code : program) : Prop :=
+Definition outcome (inr : bool) (after : option Z) (im : image) (ss : sstate) (s : mstate) (sig : signal) (ss' : sstate) (code : program) : Prop :=
   (sig = SigNormal /\ sim_to im ss s ss' (m_pc s + zlength code)) \/
   (sig = SigBreak /\ exists a, after = Some a /\ sim_to im ss s ss' (m_pc s + zlength code + a)) \/
-  (exists v, sig = SigReturn v /\ returned im ss s ss').
+  (inr = true /\ exists v, sig = SigReturn v /\ returned im ss s ss').
 
 Definition in_loop_ok (inl : bool) (after : option Z) : Prop := inl = true -> exists a, after = Some a.
 Definition in_ret_ok (inr : bool) (fs : frames) : Prop := inr = true -> exists ret F, call_tail fs = Some (ret, F).
+(* where a return may occur, the loops of the routine in progress were entered with the present stack (what RETURN cuts the stack back to);
+   the body of a light loop runs with the names still to visit on the stack: it may not return *)
+Definition in_depth_ok (inr : bool) (s : mstate) : Prop := inr = true -> depth_ok (m_frames s) (zlength (m_stack s)).
 
 Lemma in_loop_ok_map inl after f : in_loop_ok inl after -> in_loop_ok inl (option_map f after).
 Proof. intros H Hi. destruct (H Hi) as [a ->]. exists (f a). reflexivity. Qed.
@@ -205,17 +210,17 @@ Proof.
   intros z Hd. apply (depth_ok_fr_eq (m_frames s) (m_frames s1) z); [symmetry; exact H2|exact Hd].
 Qed.
 
-Lemma outcome_after_steps after im ss s sa s1 n1 e1 sig ss' c2 c :
+Lemma outcome_after_steps inr after im ss s sa s1 n1 e1 sig ss' c2 c :
   esteps n1 im s = Some (s1, e1) -> (m_stack s1, fr s1) = (m_stack s, fr s) ->
   rev (s_trace sa) = rev (s_trace ss) ++ e1 -> m_pc s1 + zlength c2 = m_pc s + zlength c ->
-  outcome after im sa s1 sig ss' c2 -> outcome after im ss s sig ss' c.
+  outcome inr after im sa s1 sig ss' c2 -> outcome inr after im ss s sig ss' c.
 Proof.
-  intros E1 Hst1 Ht1 Hpc [[Hsig (n & s2 & e2 & E2 & Hs2 & Hpc2 & Hst2 & Ht2)]|[[Hsig (a & Ha & n & s2 & e2 & E2 & Hs2 & Hpc2 & Hst2 & Ht2)]|[v [Hsig Hret]]]].
+  intros E1 Hst1 Ht1 Hpc [[Hsig (n & s2 & e2 & E2 & Hs2 & Hpc2 & Hst2 & Ht2)]|[[Hsig (a & Ha & n & s2 & e2 & E2 & Hs2 & Hpc2 & Hst2 & Ht2)]|[Hinr [v [Hsig Hret]]]]].
   - left. split; [exact Hsig|]. exists (n1 + n)%nat, s2, (e1 ++ e2). split; [eapply esteps_app; eassumption|]. split; [exact Hs2|].
     split; [rewrite Hpc2; exact Hpc|]. split; [rewrite Hst2; exact Hst1|]. rewrite Ht2, Ht1, app_assoc. reflexivity.
   - right. left. split; [exact Hsig|]. exists a. split; [exact Ha|]. exists (n1 + n)%nat, s2, (e1 ++ e2). split; [eapply esteps_app; eassumption|]. split; [exact Hs2|].
     split; [rewrite Hpc2, Hpc; reflexivity|]. split; [rewrite Hst2; exact Hst1|]. rewrite Ht2, Ht1, app_assoc. reflexivity.
-  - right. right. exists v. split; [exact Hsig|]. destruct (fr_eq_facts s1 s Hst1) as [Hsk [Hct _]].
+  - right. right. split; [exact Hinr|]. exists v. split; [exact Hsig|]. destruct (fr_eq_facts s1 s Hst1) as [Hsk [Hct _]].
     exact (returned_rebase im ss s sa s1 n1 e1 ss' E1 Hct Hsk Ht1 Hret).
 Qed.
 
@@ -331,12 +336,12 @@ Qed.
 Theorem simpleB_simulation_upto : bodies_ok -> forall fuel0 : nat,
   (forall inl inr st, SimpleB inl inr st ->
      forall after im ss s sig ss' fuel, (fuel <= fuel0)%nat -> routines_loaded im -> in_loop_ok inl after -> in_ret_ok inr (m_frames s) ->
-     depth_ok (m_frames s) (zlength (m_stack s)) -> sim ss s -> code_at im (m_pc s) (c_stmt rt mt false after st) ->
-     Sem.exec rt mt fuel false ss st = ROk sig ss' -> outcome after im ss s sig ss' (c_stmt rt mt false after st)) /\
+     in_depth_ok inr s -> sim ss s -> code_at im (m_pc s) (c_stmt rt mt false after st) ->
+     Sem.exec rt mt fuel false ss st = ROk sig ss' -> outcome inr after im ss s sig ss' (c_stmt rt mt false after st)) /\
   (forall inl inr l, SimpleBL inl inr l ->
      forall after im ss s sig ss' fuel, (fuel <= fuel0)%nat -> routines_loaded im -> in_loop_ok inl after -> in_ret_ok inr (m_frames s) ->
-     depth_ok (m_frames s) (zlength (m_stack s)) -> sim ss s -> code_at im (m_pc s) (c_stmt rt mt false after (SBlock l)) ->
-     exec_seq rt mt fuel false ss l = ROk sig ss' -> outcome after im ss s sig ss' (c_stmt rt mt false after (SBlock l))).
+     in_depth_ok inr s -> sim ss s -> code_at im (m_pc s) (c_stmt rt mt false after (SBlock l)) ->
+     exec_seq rt mt fuel false ss l = ROk sig ss' -> outcome inr after im ss s sig ss' (c_stmt rt mt false after (SBlock l))).
 Proof.
   intros Hbodies fuel0. induction fuel0 as [fuel0 IHfuel] using (well_founded_induction lt_wf).
   apply SimpleB_mutind.
@@ -365,8 +370,8 @@ Proof.
     destruct (Hir eq_refl) as (ret & F & Hct).
     set (s2 := advance (with_pc (with_stack (with_frames s1 F) (m_stack s1)) ret)).
     assert (E2 : esteps 1 im s1 = Some (s2, [])).
-    { apply (estep1 im s1 _ _ _ Hfr). cbn [Machine.exec i_op I0]. rewrite (do_return_steps s1 ret F Hct Hd). reflexivity. }
-    right. right. exists x. split; [reflexivity|]. exists ret, F. split; [exact Hct|].
+    { apply (estep1 im s1 _ _ _ Hfr). cbn [Machine.exec i_op I0]. rewrite (do_return_steps s1 ret F Hct (Hd eq_refl)). reflexivity. }
+    right. right. split; [reflexivity|]. exists x. split; [reflexivity|]. exists ret, F. split; [exact Hct|].
     exists (n + 1)%nat, s2, ([] ++ []). split; [eapply esteps_app; eassumption|].
     split; [destruct Hs1 as [Hr1 Hf1 Hg1 Hv1 Hst1 Hw1 Hu1]; repeat split; assumption|].
     split; [reflexivity|]. split; [reflexivity|]. split; [reflexivity|]. rewrite app_nil_r. reflexivity.
@@ -383,8 +388,8 @@ Proof.
     destruct (Hir eq_refl) as (ret & F & Hct).
     set (s2 := advance (with_pc (with_stack (with_frames s1 F) (m_stack s1)) ret)).
     assert (E2 : esteps 1 im s1 = Some (s2, [])).
-    { apply (estep1 im s1 _ _ _ Hf2). cbn [Machine.exec i_op I0]. rewrite (do_return_steps s1 ret F Hct Hd). reflexivity. }
-    right. right. exists VNone. split; [reflexivity|]. exists ret, F. split; [exact Hct|].
+    { apply (estep1 im s1 _ _ _ Hf2). cbn [Machine.exec i_op I0]. rewrite (do_return_steps s1 ret F Hct (Hd eq_refl)). reflexivity. }
+    right. right. split; [reflexivity|]. exists VNone. split; [reflexivity|]. exists ret, F. split; [exact Hct|].
     exists (1 + 1)%nat, s2, ([] ++ []). split; [eapply esteps_app; eassumption|].
     split; [destruct Hs1 as [Hr1 Hf1' Hg1 Hv1 Hst1 Hw1 Hu1]; repeat split; assumption|].
     split; [reflexivity|]. split; [reflexivity|]. split; [reflexivity|]. rewrite app_nil_r. reflexivity.
@@ -419,7 +424,7 @@ Proof.
     assert (Hs3 : sim ssb s3).
     { destruct Hs2 as [Hr Hfu Hg Hv Hw Hu Hdf]. constructor; cbn [s3 ssb with_pc with_frames with_vars s_with_locals m_regs m_globals m_frames m_world m_unnamed s_regs s_globals s_locals s_world vars_of settled]; try assumption; reflexivity. }
     assert (Hct3 : call_tail (m_frames s3) = Some (ret, F)) by reflexivity.
-    assert (Hd3 : depth_ok (m_frames s3) (zlength (m_stack s3))) by exact I.
+    assert (Hd3 : in_depth_ok true s3) by (intros _; exact I).
     assert (Hin3 : in_loop_ok false None) by (intros H; discriminate).
     assert (Hir3 : in_ret_ok true (m_frames s3)) by (intros _; exists ret, F; exact Hct3).
     assert (Hbcode3 : code_at im (m_pc s3) (c_stmt rt mt false None (rd_body d))) by exact Hbcode.
@@ -435,10 +440,10 @@ Proof.
     destruct Hss' as [-> ->].
     left. split; [reflexivity|]. rewrite Hlen.
     destruct (proj1 (IHfuel fuel ltac:(lia)) false true (rd_body d) (Hbodies f d Hf) None im ssb s3 sgb sb fuel (le_n _) Hload Hin3 Hir3 Hd3 Hs3 Hbcode3 Eb)
-      as [[Hsgb (n4 & s4 & e4 & E4 & Hs4 & Hpc4 & Hst4 & Ht4)]|[[Hsgb (a' & Ha' & _)]|[v [Hsgb (ret' & F' & Hct' & n4 & s4 & e4 & E4 & Hr4 & Hpc4 & Hfr4 & Hst4 & Ht4)]]]].
+      as [[Hsgb (n4 & s4 & e4 & E4 & Hs4 & Hpc4 & Hst4 & Ht4)]|[[Hsgb (a' & Ha' & _)]|[_ [v [Hsgb (ret' & F' & Hct' & n4 & s4 & e4 & E4 & Hr4 & Hpc4 & Hfr4 & Hst4 & Ht4)]]]]].
     + (* the body runs into END f: back to the END_CTX of the call *)
       destruct (fr_eq_facts s4 s3 Hst4) as [Hsk4 [Hct4 Hdp4]].
-      assert (Hd4 : depth_ok (m_frames s4) (zlength (m_stack s4))) by (rewrite Hsk4; apply Hdp4; exact Hd3).
+      assert (Hd4 : depth_ok (m_frames s4) (zlength (m_stack s4))) by (rewrite Hsk4; apply Hdp4; exact (Hd3 eq_refl)).
       rewrite Hct3 in Hct4.
       set (s5 := with_pc (with_stack (with_frames s4 F) (m_stack s4)) ret).
       assert (E5 : esteps 1 im s4 = Some (s5, [])).
@@ -486,7 +491,7 @@ Proof.
       assert (Hb2 : code_at im (m_pc s2) body).
       { unfold s2. cbn [with_pc m_pc]. unfold s1. cbn [put_vm m_pc]. rewrite zlength1 in Hbody. exact Hbody. }
       pose proof (IHa after im ss s2 sig ss' fuel ltac:(lia) Hload Hin Hir Hd (sim_with_pc ss s1 _ Hs1) Hb2 He) as Ho.
-      apply (outcome_after_steps after im ss s ss s2 (n + 1)%nat ([] ++ []) sig ss' body); [eapply esteps_app; eassumption|reflexivity|rewrite app_nil_r; reflexivity| |exact Ho].
+      apply (outcome_after_steps inr after im ss s ss s2 (n + 1)%nat ([] ++ []) sig ss' body); [eapply esteps_app; eassumption|reflexivity|rewrite app_nil_r; reflexivity| |exact Ho].
       rewrite Hlen. unfold s2, s1. cbn [with_pc put_vm m_pc]. lia.
     + injection He as Hsig He. subst ss'. left. split; [auto|].
       exists (n + 1)%nat, (with_pc s1 (m_pc s1 + (zlength body + 1))), ([] ++ []).
@@ -519,7 +524,7 @@ Proof.
       set (s2 := with_pc s1 (m_pc s1 + 1)) in *.
       assert (Hb2 : code_at im (m_pc s2) ta) by (unfold s2; cbn [with_pc m_pc]; rewrite Hk; exact Hthen).
       assert (E2 : esteps (n + 1) im s = Some (s2, [] ++ [])) by (eapply esteps_app; eassumption).
-      destruct (IHa after_a im ss s2 sig ss' fuel ltac:(lia) Hload (in_loop_ok_map inl after _ Hin) Hir Hd (sim_with_pc ss s1 _ Hs1) Hb2 He) as [[Hsig Hto]|[[Hsig (a' & Ha' & Hto)]|[v [Hsig Hret]]]].
+      destruct (IHa after_a im ss s2 sig ss' fuel ltac:(lia) Hload (in_loop_ok_map inl after _ Hin) Hir Hd (sim_with_pc ss s1 _ Hs1) Hb2 He) as [[Hsig Hto]|[[Hsig (a' & Ha' & Hto)]|[Hinr [v [Hsig Hret]]]]].
       * left. split; [exact Hsig|]. rewrite Hlen.
         apply (sim_to_after_steps im ss s ss s2 (n + 1)%nat ([] ++ []) ss'); [exact E2|reflexivity|rewrite app_nil_r; reflexivity|].
         replace (m_pc s + (k + 1 + zlength ta + 1 + zlength tb)) with (m_pc s2 + zlength ta + (zlength tb + 1)) by (unfold s2; cbn [with_pc m_pc]; rewrite Hk; lia).
@@ -529,14 +534,14 @@ Proof.
         apply (sim_to_after_steps im ss s ss s2 (n + 1)%nat ([] ++ []) ss'); [exact E2|reflexivity|rewrite app_nil_r; reflexivity|].
         replace (m_pc s + (k + 1 + zlength ta + 1 + zlength tb) + a0) with (m_pc s2 + zlength ta + (a0 + 1 + zlength tb)) by (unfold s2; cbn [with_pc m_pc]; rewrite Hk; lia).
         exact Hto.
-      * right. right. exists v. split; [exact Hsig|].
+      * right. right. split; [exact Hinr|]. exists v. split; [exact Hsig|].
         exact (returned_rebase im ss s ss s2 (n + 1)%nat ([] ++ []) ss' E2 eq_refl eq_refl (eq_sym (app_nil_r _)) Hret).
     + (* else-branch *)
       set (s2 := with_pc s1 (m_pc s1 + (zlength ta + 2))) in *.
       assert (Hb2 : code_at im (m_pc s2) tb).
       { unfold s2. cbn [with_pc m_pc]. rewrite Hk. replace (m_pc s + k + (zlength ta + 2)) with (m_pc s + k + 1 + zlength ta + 1) by lia. exact Helse. }
       pose proof (IHb after im ss s2 sig ss' fuel ltac:(lia) Hload Hin Hir Hd (sim_with_pc ss s1 _ Hs1) Hb2 He) as Ho.
-      apply (outcome_after_steps after im ss s ss s2 (n + 1)%nat ([] ++ []) sig ss' tb); [eapply esteps_app; eassumption|reflexivity|rewrite app_nil_r; reflexivity| |exact Ho].
+      apply (outcome_after_steps inr after im ss s ss s2 (n + 1)%nat ([] ++ []) sig ss' tb); [eapply esteps_app; eassumption|reflexivity|rewrite app_nil_r; reflexivity| |exact Ho].
       rewrite Hlen. unfold s2. cbn [with_pc m_pc]. rewrite Hk. lia.
   - (* block *)
     intros inl inr l Hl IH after im ss s sig ss' fuel Hle Hload Hin Hir Hd Hsim Hc He. destruct fuel as [|fuel]; [discriminate|].
@@ -567,11 +572,11 @@ Proof.
               iterate rt mt f false ss1 (Some c) None None None a = ROk sg ssx ->
               (sg = SigNormal /\ exists n sy evs, esteps n im sx = Some (sy, evs) /\ sim ssx sy /\ m_pc sy = P0 + (kT + kB + 4) /\
                                            (m_stack sy, fr sy) = (m_stack s, fr s) /\ rev (s_trace ssx) = rev (s_trace ss1) ++ evs) \/
-              (exists v, sg = SigReturn v /\ returned im ss1 sx ssx)).
+              (inr = true /\ exists v, sg = SigReturn v /\ returned im ss1 sx ssx)).
     { induction f as [|f IHf]; intros ss1 sx sg ssx lv r Hlef Hsx Hpcx Hfrx Herx Hstx Hit; [discriminate|].
       assert (Hctx : call_tail (m_frames sx) = call_tail (m_frames s)) by (rewrite Hfrx; cbn [call_tail]; apply call_tail_fr_eq; exact Herx).
-      assert (Hdx : depth_ok (m_frames sx) (zlength (m_stack sx))).
-      { rewrite Hfrx, Hstx. cbn [depth_ok]. split; [reflexivity|]. apply (depth_ok_fr_eq (m_frames s) r); [symmetry; exact Herx|exact Hd]. }
+      assert (Hdx : in_depth_ok inr sx).
+      { intros Hi. rewrite Hfrx, Hstx. cbn [depth_ok]. split; [reflexivity|]. apply (depth_ok_fr_eq (m_frames s) r); [symmetry; exact Herx|exact (Hd Hi)]. }
       assert (Hirx : in_ret_ok inr (m_frames sx)) by (intros Hi; destruct (Hir Hi) as (ret & F & H); exists ret, F; rewrite Hctx; exact H).
       rewrite iterate_while in Hit.
       destruct (eval_rval rt mt f false ss1 c) as [x sa|e sa|sa] eqn:Ev; cbn [sbind] in Hit; try discriminate.
@@ -592,7 +597,7 @@ Proof.
         destruct Hst3 as [Hsk3 Hfk3].
         assert (E23 : esteps (n + 1) im sx = Some (s3, [] ++ [])) by (eapply esteps_app; eassumption).
         destruct (IHa (Some 1) im ss1 s3 sgb sb f ltac:(lia) Hload Hin1 Hirx Hdx (sim_with_pc ss1 s2 _ Hs2) HcB3 Eb)
-          as [[Hsgb (n3 & s4 & e4 & E4 & Hs4 & Hpc4 & Hst4 & Ht4)]|[[Hsgb (a' & Ha' & (n3 & s4 & e4 & E4 & Hs4 & Hpc4 & Hst4 & Ht4))]|[v [Hsgb Hret]]]]; subst sgb.
+          as [[Hsgb (n3 & s4 & e4 & E4 & Hs4 & Hpc4 & Hst4 & Ht4)]|[[Hsgb (a' & Ha' & (n3 & s4 & e4 & E4 & Hs4 & Hpc4 & Hst4 & Ht4))]|[Hinr [v [Hsgb Hret]]]]]; subst sgb.
         + (* the body ends normally: back to the test *)
           assert (Hfjb4 : fetch im (m_pc s4) = Some (jump JC_ALWAYS (- (kT + 1 + kB)))).
           { rewrite Hpc4. unfold s3. cbn [with_pc m_pc]. rewrite Hpc2. fold B. fold kB. exact Hfjb. }
@@ -600,7 +605,7 @@ Proof.
           set (s5 := with_pc s4 (m_pc s4 + - (kT + 1 + kB))) in *.
           destruct (loop_frame_kept s4 s3 s lv d r Hst4 Hsk3 Hfk3 Herx) as [Hsk4 (r4 & Hfk4 & Her4)].
           assert (E25 : esteps (n + (1 + (n3 + 1))) im sx = Some (s5, [] ++ ([] ++ (e4 ++ [])))) by (eapply esteps_app; [exact Hn|eapply esteps_app; [exact Ej|eapply esteps_app; [exact E4|exact Ejb]]]).
-          destruct (IHf sb s5 sg ssx lv r4 ltac:(lia) (sim_with_pc sb s4 _ Hs4)) as [[Hsg (n6 & s6 & e6 & E6 & Hs6 & Hpc6 & Hst6 & Ht6)]|[v [Hsg Hret]]].
+          destruct (IHf sb s5 sg ssx lv r4 ltac:(lia) (sim_with_pc sb s4 _ Hs4)) as [[Hsg (n6 & s6 & e6 & E6 & Hs6 & Hpc6 & Hst6 & Ht6)]|[Hinr [v [Hsg Hret]]]].
           { unfold s5. cbn [with_pc m_pc]. rewrite Hpc4. unfold s3. cbn [with_pc m_pc]. rewrite Hpc2. fold B. fold kB. lia. }
           { exact Hfk4. }
           { exact Her4. }
@@ -609,7 +614,7 @@ Proof.
           * left. split; [exact Hsg|]. exists ((n + (1 + (n3 + 1))) + n6)%nat, s6, (([] ++ ([] ++ (e4 ++ []))) ++ e6).
             split; [eapply esteps_app; [exact E25|exact E6]|].
             split; [exact Hs6|]. split; [exact Hpc6|]. split; [exact Hst6|]. cbn [app]. rewrite Ht6, Ht4, app_nil_r, app_assoc. reflexivity.
-          * right. exists v. split; [exact Hsg|].
+          * right. split; [exact Hinr|]. exists v. split; [exact Hsg|].
             apply (returned_rebase im ss1 sx sb s5 (n + (1 + (n3 + 1)))%nat ([] ++ ([] ++ (e4 ++ []))) ssx E25); [|rewrite Hstx; exact Hsk4|cbn [app]; rewrite app_nil_r; exact Ht4|exact Hret].
             change (m_frames s5) with (m_frames s4). rewrite Hfk4, Hctx. cbn [call_tail]. apply call_tail_fr_eq. exact Her4.
         + (* the body breaks: it has jumped to END_LOOP *)
@@ -623,7 +628,7 @@ Proof.
           split; [exact Hs5|]. split; [rewrite Hpc5, Hpc4; unfold s3; cbn [with_pc m_pc]; rewrite Hpc2; fold B; fold kB; lia|].
           split; [exact Hst5|]. cbn [app]. rewrite app_nil_r. exact Ht4.
         + (* the body returns: the machine has left the routine *)
-          injection Hit as Hsg Hss. subst sg ssx. right. exists v. split; [reflexivity|].
+          injection Hit as Hsg Hss. subst sg ssx. right. split; [exact Hinr|]. exists v. split; [reflexivity|].
           exact (returned_rebase im ss1 sx ss1 s3 (n + 1)%nat ([] ++ []) sb E23 eq_refl eq_refl (eq_sym (app_nil_r _)) Hret).
       - (* the condition fails: jump to END_LOOP *)
         injection Hit as Hsg Hss. subst ssx.
@@ -635,12 +640,12 @@ Proof.
         split; [eapply esteps_app; [exact Hn|eapply esteps_app; [exact Ej|exact E4]]|].
         split; [exact Hs4|]. split; [rewrite Hpc4; unfold s3; cbn [with_pc m_pc]; rewrite Hpc2; lia|].
         split; [exact Hst4|]. rewrite app_nil_r. reflexivity. }
-    destruct (Hiter fuel ss s1 sig ss' [] (m_frames s) ltac:(lia) Hs1 eq_refl eq_refl eq_refl eq_refl He) as [[Hsig (n & sy & evs & En & Hsy & Hpcy & Hsty & Hty)]|[v [Hsig Hret]]].
+    destruct (Hiter fuel ss s1 sig ss' [] (m_frames s) ltac:(lia) Hs1 eq_refl eq_refl eq_refl eq_refl He) as [[Hsig (n & sy & evs & En & Hsy & Hpcy & Hsty & Hty)]|[Hinr [v [Hsig Hret]]]].
     + left. split; [exact Hsig|]. exists (1 + n)%nat, sy, ([] ++ evs).
       split; [eapply esteps_app; [exact E1|exact En]|]. split; [exact Hsy|].
       split; [rewrite Hpcy; unfold kT, kB, zlength; rewrite !app_length; cbn [length]; rewrite !Nat2Z.inj_add; lia|].
       split; [exact Hsty|exact Hty].
-    + right. right. exists v. split; [exact Hsig|].
+    + right. right. split; [exact Hinr|]. exists v. split; [exact Hsig|].
       exact (returned_rebase im ss s ss s1 1%nat [] ss' E1 eq_refl eq_refl (eq_sym (app_nil_r _)) Hret).
   - (* counted loop *)
     intros inl inr cn a Hn Ha IHa after im ss s sig ss' fuel Hle Hload _ Hir Hd Hsim Hcode He.
@@ -678,11 +683,11 @@ Proof.
               iterate rt mt f false ss1 None (Some c0) None None a = ROk sg ssx ->
               (sg = SigNormal /\ exists n sy evs, esteps n im sx = Some (sy, evs) /\ sim ssx sy /\ m_pc sy = P0 + (kN + kB + 12) /\
                                            (m_stack sy, fr sy) = (m_stack s, fr s) /\ rev (s_trace ssx) = rev (s_trace ss1) ++ evs) \/
-              (exists v, sg = SigReturn v /\ returned im ss1 sx ssx)).
+              (inr = true /\ exists v, sg = SigReturn v /\ returned im ss1 sx ssx)).
     { induction f as [|f IHf]; intros ss1 sx sg ssx lv c0 r Hlef Hsx Hpcx Hfrx Herx Hlvx Hstx Hit; [discriminate|].
       assert (Hctx : call_tail (m_frames sx) = call_tail (m_frames s)) by (rewrite Hfrx; cbn [call_tail]; apply call_tail_fr_eq; exact Herx).
-      assert (Hdx : depth_ok (m_frames sx) (zlength (m_stack sx))).
-      { rewrite Hfrx, Hstx. cbn [depth_ok]. split; [reflexivity|]. apply (depth_ok_fr_eq (m_frames s) r); [symmetry; exact Herx|exact Hd]. }
+      assert (Hdx : in_depth_ok inr sx).
+      { intros Hi. rewrite Hfrx, Hstx. cbn [depth_ok]. split; [reflexivity|]. apply (depth_ok_fr_eq (m_frames s) r); [symmetry; exact Herx|exact (Hd Hi)]. }
       assert (Hirx : in_ret_ok inr (m_frames sx)) by (intros Hi; destruct (Hir Hi) as (ret & F & H); exists ret, F; rewrite Hctx; exact H).
       rewrite iterate_count in Hit.
       destruct (positive c0) as [go|e] eqn:Epos; cbn [lift_res sbind] in Hit; [|discriminate].
@@ -702,7 +707,7 @@ Proof.
         destruct Hst4 as [Hsk4 Hfk4].
         assert (E34 : esteps (4 + 1) im sx = Some (s4, [] ++ [])) by (eapply esteps_app; eassumption).
         destruct (IHa (Some (4 + 1)) im ss1 s4 sgb sb f ltac:(lia) Hload Hin1 Hirx Hdx (sim_with_pc ss1 s3 _ Hs3) HcB4 Eb)
-          as [[Hsgb (n5 & s5 & e5 & E5 & Hs5 & Hpc5 & Hst5 & Ht5)]|[[Hsgb (a' & Ha' & (n5 & s5 & e5 & E5 & Hs5 & Hpc5 & Hst5 & Ht5))]|[v [Hsgb Hret]]]]; subst sgb.
+          as [[Hsgb (n5 & s5 & e5 & E5 & Hs5 & Hpc5 & Hst5 & Ht5)]|[[Hsgb (a' & Ha' & (n5 & s5 & e5 & E5 & Hs5 & Hpc5 & Hst5 & Ht5))]|[Hinr [v [Hsgb Hret]]]]]; subst sgb.
         + (* the body ends normally: count down, back to the test *)
           destruct (sub1 c0) as [c1|e] eqn:Esub; cbn [bind] in Hit; [|discriminate].
           destruct (loop_frame_kept s5 s4 s lv d r Hst5 Hsk4 Hfk4 Herx) as [Hsk5 (r5 & Hfk5 & Her5)].
@@ -716,7 +721,7 @@ Proof.
           pose proof (jump_always im s6 (- (4 + 1 + (kB + 4))) Hfjb6) as Ejb.
           set (s7 := with_pc s6 (m_pc s6 + - (4 + 1 + (kB + 4)))) in *.
           assert (E37 : esteps (4 + (1 + (n5 + (4 + 1)))) im sx = Some (s7, [] ++ ([] ++ (e5 ++ ([] ++ []))))) by (eapply esteps_app; [exact Et|eapply esteps_app; [exact Ej|eapply esteps_app; [exact E5|eapply esteps_app; [exact E6|exact Ejb]]]]).
-          destruct (IHf sb s7 sg ssx (lv_set lv LV_COUNTER c1) c1 r5 ltac:(lia) (sim_with_pc sb s6 _ Hs6)) as [[Hsg (n8 & s8 & e8 & E8 & Hs8 & Hpc8 & Hst8 & Ht8)]|[v [Hsg Hret]]].
+          destruct (IHf sb s7 sg ssx (lv_set lv LV_COUNTER c1) c1 r5 ltac:(lia) (sim_with_pc sb s6 _ Hs6)) as [[Hsg (n8 & s8 & e8 & E8 & Hs8 & Hpc8 & Hst8 & Ht8)]|[Hinr [v [Hsg Hret]]]].
           { unfold s7. cbn [with_pc m_pc]. unfold s6. cbn [with_counter m_pc]. rewrite Hpc5'. lia. }
           { unfold s7, s6. cbn [with_pc with_counter m_frames]. rewrite Hfk5. reflexivity. }
           { exact Her5. }
@@ -726,7 +731,7 @@ Proof.
           * left. split; [exact Hsg|]. exists ((4 + (1 + (n5 + (4 + 1)))) + n8)%nat, s8, (([] ++ ([] ++ (e5 ++ ([] ++ [])))) ++ e8).
             split; [eapply esteps_app; [exact E37|exact E8]|].
             split; [exact Hs8|]. split; [exact Hpc8|]. split; [exact Hst8|]. cbn [app]. rewrite Ht8, Ht5, app_nil_r, app_assoc. reflexivity.
-          * right. exists v. split; [exact Hsg|].
+          * right. split; [exact Hinr|]. exists v. split; [exact Hsg|].
             apply (returned_rebase im ss1 sx sb s7 (4 + (1 + (n5 + (4 + 1))))%nat ([] ++ ([] ++ (e5 ++ ([] ++ [])))) ssx E37); [|rewrite Hstx; exact Hsk5|cbn [app]; rewrite app_nil_r; exact Ht5|exact Hret].
             unfold s7, s6. cbn [with_pc with_counter m_frames]. rewrite Hfk5, Hctx. cbn [call_tail]. apply call_tail_fr_eq. exact Her5.
         + (* the body breaks: it has jumped over the count-down to END_LOOP *)
@@ -741,7 +746,7 @@ Proof.
           split; [exact Hs6|]. split; [rewrite Hpc6, Hpc5; unfold s4; cbn [with_pc m_pc]; rewrite Hpc3; fold B; fold kB; lia|].
           split; [exact Hst6|]. cbn [app]. rewrite app_nil_r. exact Ht5.
         + (* the body returns *)
-          injection Hit as Hsg Hss. subst sg ssx. right. exists v. split; [reflexivity|].
+          injection Hit as Hsg Hss. subst sg ssx. right. split; [exact Hinr|]. exists v. split; [reflexivity|].
           exact (returned_rebase im ss1 sx ss1 s4 (4 + 1)%nat ([] ++ []) sb E34 eq_refl eq_refl (eq_sym (app_nil_r _)) Hret).
       - (* the count is used up *)
         injection Hit as Hsg Hss. subst ssx.
@@ -753,7 +758,7 @@ Proof.
         split; [eapply esteps_app; [exact Et|eapply esteps_app; [exact Ej|exact E5]]|].
         split; [exact Hs5|]. split; [rewrite Hpc5; unfold s4; cbn [with_pc m_pc]; rewrite Hpc3; lia|].
         split; [exact Hst5|]. rewrite app_nil_r. reflexivity. }
-    destruct (Hiter fuel ss s2 sig ss' (lv_set [] LV_COUNTER cnt) cnt (m_frames s) ltac:(lia) Hs2) as [[Hsig (n & sy & evs & En & Hsy & Hpcy & Hsty & Hty)]|[v [Hsig Hret]]].
+    destruct (Hiter fuel ss s2 sig ss' (lv_set [] LV_COUNTER cnt) cnt (m_frames s) ltac:(lia) Hs2) as [[Hsig (n & sy & evs & En & Hsy & Hpcy & Hsty & Hty)]|[Hinr [v [Hsig Hret]]]].
     { unfold s2, s1. cbn [with_counter advance with_pc with_frames with_vars m_pc]. fold P0. reflexivity. }
     { reflexivity. }
     { reflexivity. }
@@ -764,7 +769,7 @@ Proof.
       split; [eapply esteps_app; [exact E1|eapply esteps_app; [exact HnN|exact En]]|]. split; [exact Hsy|].
       split; [rewrite Hpcy; unfold kN, kB, zlength; rewrite !app_length; cbn [length]; rewrite !Nat2Z.inj_add; change (Z.of_nat (length counter_test)) with 4; change (Z.of_nat (length (counter_post None))) with 4; lia|].
       split; [exact Hsty|exact Hty].
-    + right. right. exists v. split; [exact Hsig|].
+    + right. right. split; [exact Hinr|]. exists v. split; [exact Hsig|].
       assert (E12 : esteps (1 + nN) im s = Some (s2, [] ++ [])) by (eapply esteps_app; [exact E1|exact HnN]).
       exact (returned_rebase im ss s ss s2 (1 + nN)%nat ([] ++ []) ss' E12 eq_refl eq_refl (eq_sym (app_nil_r _)) Hret).
   - (* endless repeat: left only by break *)
@@ -791,11 +796,11 @@ Proof.
               iterate rt mt f false ss1 None None None None a = ROk sg ssx ->
               (sg = SigNormal /\ exists n sy evs, esteps n im sx = Some (sy, evs) /\ sim ssx sy /\ m_pc sy = P0 + (1 + kB + 4) /\
                                            (m_stack sy, fr sy) = (m_stack s, fr s) /\ rev (s_trace ssx) = rev (s_trace ss1) ++ evs) \/
-              (exists v, sg = SigReturn v /\ returned im ss1 sx ssx)).
+              (inr = true /\ exists v, sg = SigReturn v /\ returned im ss1 sx ssx)).
     { induction f as [|f IHf]; intros ss1 sx sg ssx lv r Hlef Hsx Hpcx Hfrx Herx Hstx Hit; [discriminate|].
       assert (Hctx : call_tail (m_frames sx) = call_tail (m_frames s)) by (rewrite Hfrx; cbn [call_tail]; apply call_tail_fr_eq; exact Herx).
-      assert (Hdx : depth_ok (m_frames sx) (zlength (m_stack sx))).
-      { rewrite Hfrx, Hstx. cbn [depth_ok]. split; [reflexivity|]. apply (depth_ok_fr_eq (m_frames s) r); [symmetry; exact Herx|exact Hd]. }
+      assert (Hdx : in_depth_ok inr sx).
+      { intros Hi. rewrite Hfrx, Hstx. cbn [depth_ok]. split; [reflexivity|]. apply (depth_ok_fr_eq (m_frames s) r); [symmetry; exact Herx|exact (Hd Hi)]. }
       assert (Hirx : in_ret_ok inr (m_frames sx)) by (intros Hi; destruct (Hir Hi) as (ret & F & H); exists ret, F; rewrite Hctx; exact H).
       rewrite iterate_infinite in Hit.
       assert (Hftx : fetch im (m_pc sx) = Some (I2 OC_MOVEQ (PBool true) (PReg R_RESULT))) by (rewrite Hpcx; exact Hft).
@@ -815,14 +820,14 @@ Proof.
       destruct Hst3 as [Hsk3 Hfk3].
       assert (E23 : esteps (1 + 1) im sx = Some (s3, [] ++ [])) by (eapply esteps_app; eassumption).
       destruct (IHa (Some 1) im ss1 s3 sgb sb f ltac:(lia) Hload Hin1 Hirx Hdx (sim_with_pc ss1 s2 _ Hs2) HcB3 Eb)
-        as [[Hsgb (n3 & s4 & e4 & E4 & Hs4 & Hpc4 & Hst4 & Ht4)]|[[Hsgb (a' & Ha' & (n3 & s4 & e4 & E4 & Hs4 & Hpc4 & Hst4 & Ht4))]|[v [Hsgb Hret]]]]; subst sgb.
+        as [[Hsgb (n3 & s4 & e4 & E4 & Hs4 & Hpc4 & Hst4 & Ht4)]|[[Hsgb (a' & Ha' & (n3 & s4 & e4 & E4 & Hs4 & Hpc4 & Hst4 & Ht4))]|[Hinr [v [Hsgb Hret]]]]]; subst sgb.
       + assert (Hfjb4 : fetch im (m_pc s4) = Some (jump JC_ALWAYS (- (1 + 1 + kB)))).
         { rewrite Hpc4. unfold s3. cbn [with_pc m_pc]. rewrite Hpc2. fold B. fold kB. exact Hfjb. }
         pose proof (jump_always im s4 (- (1 + 1 + kB)) Hfjb4) as Ejb.
         set (s5 := with_pc s4 (m_pc s4 + - (1 + 1 + kB))) in *.
         destruct (loop_frame_kept s4 s3 s lv d r Hst4 Hsk3 Hfk3 Herx) as [Hsk4 (r4 & Hfk4 & Her4)].
         assert (E25 : esteps (1 + (1 + (n3 + 1))) im sx = Some (s5, [] ++ ([] ++ (e4 ++ [])))) by (eapply esteps_app; [exact Et|eapply esteps_app; [exact Ej|eapply esteps_app; [exact E4|exact Ejb]]]).
-        destruct (IHf sb s5 sg ssx lv r4 ltac:(lia) (sim_with_pc sb s4 _ Hs4)) as [[Hsg (n6 & s6 & e6 & E6 & Hs6 & Hpc6 & Hst6 & Ht6)]|[v [Hsg Hret]]].
+        destruct (IHf sb s5 sg ssx lv r4 ltac:(lia) (sim_with_pc sb s4 _ Hs4)) as [[Hsg (n6 & s6 & e6 & E6 & Hs6 & Hpc6 & Hst6 & Ht6)]|[Hinr [v [Hsg Hret]]]].
         { unfold s5. cbn [with_pc m_pc]. rewrite Hpc4. unfold s3. cbn [with_pc m_pc]. rewrite Hpc2. fold B. fold kB. lia. }
         { exact Hfk4. }
         { exact Her4. }
@@ -831,7 +836,7 @@ Proof.
         * left. split; [exact Hsg|]. exists ((1 + (1 + (n3 + 1))) + n6)%nat, s6, (([] ++ ([] ++ (e4 ++ []))) ++ e6).
           split; [eapply esteps_app; [exact E25|exact E6]|].
           split; [exact Hs6|]. split; [exact Hpc6|]. split; [exact Hst6|]. cbn [app]. rewrite Ht6, Ht4, app_nil_r, app_assoc. reflexivity.
-        * right. exists v. split; [exact Hsg|].
+        * right. split; [exact Hinr|]. exists v. split; [exact Hsg|].
           apply (returned_rebase im ss1 sx sb s5 (1 + (1 + (n3 + 1)))%nat ([] ++ ([] ++ (e4 ++ []))) ssx E25); [|rewrite Hstx; exact Hsk4|cbn [app]; rewrite app_nil_r; exact Ht4|exact Hret].
           change (m_frames s5) with (m_frames s4). rewrite Hfk4, Hctx. cbn [call_tail]. apply call_tail_fr_eq. exact Her4.
       + injection Ha' as Ha'. subst a'. injection Hit as Hsg Hss. subst ssx.
@@ -844,14 +849,14 @@ Proof.
         split; [exact Hs5|]. split; [rewrite Hpc5, Hpc4; unfold s3; cbn [with_pc m_pc]; rewrite Hpc2; fold B; fold kB; lia|].
         split; [exact Hst5|]. cbn [app]. rewrite app_nil_r. exact Ht4.
       + (* the body returns *)
-        injection Hit as Hsg Hss. subst sg ssx. right. exists v. split; [reflexivity|].
+        injection Hit as Hsg Hss. subst sg ssx. right. split; [exact Hinr|]. exists v. split; [reflexivity|].
         exact (returned_rebase im ss1 sx ss1 s3 (1 + 1)%nat ([] ++ []) sb E23 eq_refl eq_refl (eq_sym (app_nil_r _)) Hret). }
-    destruct (Hiter fuel ss s1 sig ss' [] (m_frames s) ltac:(lia) Hs1 eq_refl eq_refl eq_refl eq_refl He) as [[Hsig (n & sy & evs & En & Hsy & Hpcy & Hsty & Hty)]|[v [Hsig Hret]]].
+    destruct (Hiter fuel ss s1 sig ss' [] (m_frames s) ltac:(lia) Hs1 eq_refl eq_refl eq_refl eq_refl He) as [[Hsig (n & sy & evs & En & Hsy & Hpcy & Hsty & Hty)]|[Hinr [v [Hsig Hret]]]].
     + left. split; [exact Hsig|]. exists (1 + n)%nat, sy, ([] ++ evs).
       split; [eapply esteps_app; [exact E1|exact En]|]. split; [exact Hsy|].
       split; [rewrite Hpcy; unfold kB, zlength; rewrite !app_length; cbn [length]; rewrite !Nat2Z.inj_add; lia|].
       split; [exact Hsty|exact Hty].
-    + right. right. exists v. split; [exact Hsig|].
+    + right. right. split; [exact Hinr|]. exists v. split; [exact Hsig|].
       exact (returned_rebase im ss s ss s1 1%nat [] ss' E1 eq_refl eq_refl (eq_sym (app_nil_r _)) Hret).
   - (* loops with an index variable: repeat with v from a to b, repeat n with v from a to b, repeat n with v cycle *)
     intros inl inr l v N a Hform Ha IHa after im ss s sig ss' fuel Hle Hload _ Hir Hd Hsim Hcode He.
@@ -889,11 +894,11 @@ Proof.
               iterate rt mt f false ss1 None (Some c0) (Some (v, incr)) None a = ROk sg ssx ->
               (sg = SigNormal /\ exists n sy evs, esteps n im sx = Some (sy, evs) /\ sim ssx sy /\ m_pc sy = P0 + (kN + kB + 16) /\
                                            (m_stack sy, fr sy) = (m_stack s, fr s) /\ rev (s_trace ssx) = rev (s_trace ss1) ++ evs) \/
-              (exists w, sg = SigReturn w /\ returned im ss1 sx ssx)).
+              (inr = true /\ exists w, sg = SigReturn w /\ returned im ss1 sx ssx)).
     { induction f as [|f IHf]; intros ss1 sx sg ssx lv c0 r Hlef Hsx Hpcx Hfrx Herx Hlvx HlvI Hstx Hit; [discriminate|].
       assert (Hctx : call_tail (m_frames sx) = call_tail (m_frames s)) by (rewrite Hfrx; cbn [call_tail]; apply call_tail_fr_eq; exact Herx).
-      assert (Hdx : depth_ok (m_frames sx) (zlength (m_stack sx))).
-      { rewrite Hfrx, Hstx. cbn [depth_ok]. split; [reflexivity|]. apply (depth_ok_fr_eq (m_frames s) r); [symmetry; exact Herx|exact Hd]. }
+      assert (Hdx : in_depth_ok inr sx).
+      { intros Hi. rewrite Hfrx, Hstx. cbn [depth_ok]. split; [reflexivity|]. apply (depth_ok_fr_eq (m_frames s) r); [symmetry; exact Herx|exact (Hd Hi)]. }
       assert (Hirx : in_ret_ok inr (m_frames sx)) by (intros Hi; destruct (Hir Hi) as (ret & F & H); exists ret, F; rewrite Hctx; exact H).
       rewrite iterate_idx in Hit.
       destruct (positive c0) as [go|e] eqn:Epos; cbn [lift_res sbind] in Hit; [|discriminate].
@@ -913,7 +918,7 @@ Proof.
         destruct Hst4 as [Hsk4 Hfk4].
         assert (E34 : esteps (4 + 1) im sx = Some (s4, [] ++ [])) by (eapply esteps_app; eassumption).
         destruct (IHa (Some (8 + 1)) im ss1 s4 sgb sb f ltac:(lia) Hload Hin1 Hirx Hdx (sim_with_pc ss1 s3 _ Hs3) HcB4 Eb)
-          as [[Hsgb (n5 & s5 & e5 & E5 & Hs5 & Hpc5 & Hst5 & Ht5)]|[[Hsgb (a' & Ha' & (n5 & s5 & e5 & E5 & Hs5 & Hpc5 & Hst5 & Ht5))]|[w [Hsgb Hret]]]]; subst sgb.
+          as [[Hsgb (n5 & s5 & e5 & E5 & Hs5 & Hpc5 & Hst5 & Ht5)]|[[Hsgb (a' & Ha' & (n5 & s5 & e5 & E5 & Hs5 & Hpc5 & Hst5 & Ht5))]|[Hinr [w [Hsgb Hret]]]]]; subst sgb.
         + (* the body ends normally: count down, step the index variable, back to the test *)
           destruct (sub1 c0) as [c1|e] eqn:Esub; cbn [bind] in Hit; [|discriminate].
           destruct (idx_next sb v incr) as [nv|e] eqn:Eidx; [|discriminate].
@@ -929,7 +934,7 @@ Proof.
           set (s7 := with_pc s6 (m_pc s6 + - (4 + 1 + (kB + 8)))) in *.
           assert (E37 : esteps (4 + (1 + (n5 + (8 + 1)))) im sx = Some (s7, [] ++ ([] ++ (e5 ++ ([] ++ []))))) by (eapply esteps_app; [exact Et|eapply esteps_app; [exact Ej|eapply esteps_app; [exact E5|eapply esteps_app; [exact E6|exact Ejb]]]]).
           destruct (assign_other_fields sb v nv) as (_ & _ & Htr).
-          destruct (IHf (assign sb v nv) s7 sg ssx lv6 c1 r6 ltac:(lia) (sim_with_pc _ s6 _ Hs6)) as [[Hsg (n8 & s8 & e8 & E8 & Hs8 & Hpc8 & Hst8 & Ht8)]|[w [Hsg Hret]]].
+          destruct (IHf (assign sb v nv) s7 sg ssx lv6 c1 r6 ltac:(lia) (sim_with_pc _ s6 _ Hs6)) as [[Hsg (n8 & s8 & e8 & E8 & Hs8 & Hpc8 & Hst8 & Ht8)]|[Hinr [w [Hsg Hret]]]].
           { unfold s7. cbn [with_pc m_pc]. rewrite Hpc6, Hpc5'. lia. }
           { exact Hfk6. }
           { rewrite Her6. exact Her5. }
@@ -940,7 +945,7 @@ Proof.
           * left. split; [exact Hsg|]. exists ((4 + (1 + (n5 + (8 + 1)))) + n8)%nat, s8, (([] ++ ([] ++ (e5 ++ ([] ++ [])))) ++ e8).
             split; [eapply esteps_app; [exact E37|exact E8]|].
             split; [exact Hs8|]. split; [exact Hpc8|]. split; [exact Hst8|]. cbn [app]. rewrite Ht8, Htr, Ht5, app_nil_r, app_assoc. reflexivity.
-          * right. exists w. split; [exact Hsg|].
+          * right. split; [exact Hinr|]. exists w. split; [exact Hsg|].
             apply (returned_rebase im ss1 sx (assign sb v nv) s7 (4 + (1 + (n5 + (8 + 1))))%nat ([] ++ ([] ++ (e5 ++ ([] ++ [])))) ssx E37); [|unfold s7; cbn [with_pc m_stack]; rewrite Hsk6, Hstx; exact Hsk5|cbn [app]; rewrite app_nil_r, Htr; exact Ht5|exact Hret].
             unfold s7. cbn [with_pc m_frames]. rewrite Hfk6, Hctx. cbn [call_tail]. apply call_tail_fr_eq. rewrite Her6. exact Her5.
         + (* the body breaks: it has jumped over the count-down to END_LOOP *)
@@ -955,7 +960,7 @@ Proof.
           split; [exact Hs6|]. split; [rewrite Hpc6, Hpc5; unfold s4; cbn [with_pc m_pc]; rewrite Hpc3; fold B; fold kB; lia|].
           split; [exact Hst6|]. cbn [app]. rewrite app_nil_r. exact Ht5.
         + (* the body returns *)
-          injection Hit as Hsg Hss. subst sg ssx. right. exists w. split; [reflexivity|].
+          injection Hit as Hsg Hss. subst sg ssx. right. split; [exact Hinr|]. exists w. split; [reflexivity|].
           exact (returned_rebase im ss1 sx ss1 s4 (4 + 1)%nat ([] ++ []) sb E34 eq_refl eq_refl (eq_sym (app_nil_r _)) Hret).
       - (* the count is used up *)
         injection Hit as Hsg Hss. subst ssx.
@@ -967,7 +972,7 @@ Proof.
         split; [eapply esteps_app; [exact Et|eapply esteps_app; [exact Ej|exact E5]]|].
         split; [exact Hs5|]. split; [rewrite Hpc5; unfold s4; cbn [with_pc m_pc]; rewrite Hpc3; lia|].
         split; [exact Hst5|]. rewrite app_nil_r. reflexivity. }
-    destruct (Hiter fuel ssp s2 sig ss' lv2 cnt r2 ltac:(lia) Hs2) as [[Hsig (n & sy & evs & En & Hsy & Hpcy & Hsty & Hty)]|[w [Hsig Hret]]].
+    destruct (Hiter fuel ssp s2 sig ss' lv2 cnt r2 ltac:(lia) Hs2) as [[Hsig (n & sy & evs & En & Hsy & Hpcy & Hsty & Hty)]|[Hinr [w [Hsig Hret]]]].
     { rewrite Hpc2. unfold s1. cbn [advance with_pc with_frames with_vars m_pc]. fold P0. lia. }
     { exact Hfk2. }
     { exact Her2. }
@@ -979,10 +984,139 @@ Proof.
       split; [eapply esteps_app; [exact E1|eapply esteps_app; [exact HnN|exact En]]|]. split; [exact Hsy|].
       split; [rewrite Hpcy; unfold kN, kB, zlength; rewrite !app_length; cbn [length]; rewrite !Nat2Z.inj_add; change (Z.of_nat (length counter_test)) with 4; change (Z.of_nat (length (counter_post (Some v)))) with 8; lia|].
       split; [exact Hsty|]. rewrite Hty, Htr0. reflexivity.
-    + right. right. exists w. split; [exact Hsig|].
+    + right. right. split; [exact Hinr|]. exists w. split; [exact Hsig|].
       assert (E12 : esteps (1 + nN) im s = Some (s2, [] ++ [])) by (eapply esteps_app; [exact E1|exact HnN]).
       apply (returned_rebase im ss s ssp s2 (1 + nN)%nat ([] ++ []) ss' E12); [|exact Hsk2|rewrite Htr0; symmetry; apply app_nil_r|exact Hret].
       rewrite Hfk2. cbn [call_tail]. apply call_tail_fr_eq. exact Her2.
+  - (* loops over lights, groups or locations: one name per pass, popped into the loop variable *)
+    intros inl inr l x ov N a Hform Ha IHa after im ss s sig ss' fuel Hle Hload _ _ _ Hsim Hcode He.
+    destruct Hform as (Hccode & HnrN & Hprep).
+    rewrite c_loop_after, Hccode in *.
+    set (K := zlength (counter_post ov)) in *.
+    assert (HlenP : len (counter_post ov) = K) by (apply len_no_routine; apply counter_post_no_routine).
+    rewrite HlenP in *.
+    pose proof (proj1 simpleB_no_routine true false a Ha (Some (K + 1))) as Hnrb.
+    set (B := c_stmt rt mt false (Some (K + 1)) a) in *.
+    assert (Hnri : forallb not_routine ([I1 OC_POP (PStr x)] ++ B ++ counter_post ov) = true) by (rewrite !forallb_app, Hnrb, counter_post_no_routine; reflexivity).
+    rewrite (len_no_routine _ Hnri) in *. change (len counter_test) with 4 in *.
+    set (kN := zlength N) in *.
+    assert (HkI : zlength ([I1 OC_POP (PStr x)] ++ B ++ counter_post ov) = 1 + zlength B + K) by (unfold K, zlength; rewrite !app_length, !Nat2Z.inj_add; cbn [length]; lia).
+    rewrite HkI in *. set (kB := zlength B) in *.
+    apply code_at_app in Hcode. destruct Hcode as [Hloop Hcode]. cbn [code_at] in Hloop. destruct Hloop as [Hfl _].
+    apply code_at_app in Hcode. destruct Hcode as [HcN Hcode].
+    apply code_at_app in Hcode. destruct Hcode as [HcT Hcode].
+    apply code_at_app in Hcode. destruct Hcode as [Hj Hcode]. cbn [code_at] in Hj. destruct Hj as [Hfj _].
+    apply code_at_app in Hcode. destruct Hcode as [HcI Hcode]. apply code_at_app in HcI. destruct HcI as [Hpop HcI]. cbn [code_at] in Hpop. destruct Hpop as [Hfp _].
+    apply code_at_app in HcI. destruct HcI as [HcB HcP].
+    apply code_at_app in Hcode. destruct Hcode as [Hjb Hend]. cbn [code_at] in Hjb, Hend. destruct Hjb as [Hfjb _]. destruct Hend as [Hfe _].
+    rewrite !zlength1 in *. fold kN in HcT, Hfj, Hfp, HcB, HcP, Hfjb, Hfe. change (zlength counter_test) with 4 in *. rewrite HkI in *. fold kB in HcP, Hfjb, Hfe.
+    set (P0 := m_pc s) in *.
+    set (d := zlength (m_stack s)).
+    set (s1 := advance (with_frames s (FLoop [] d :: m_frames s))).
+    assert (E1 : esteps 1 im s = Some (s1, [])) by (apply (estep1 im s _ _ _ Hfl); reflexivity).
+    assert (Hs1 : sim ss s1) by (destruct Hsim; constructor; cbn; assumption).
+    assert (HcN1 : code_at im (m_pc s1) N) by exact HcN.
+    destruct (Hprep fuel ss a sig ss' im s1 d (m_frames s) He Hs1 eq_refl HcN1)
+      as (f' & names0 & idx & ssp & nN & s2 & lv2 & r2 & Hf' & He' & Hidx2 & Htr0 & HnN & Hs2 & Hpc2 & Hfk2 & Her2 & Hsk2 & HlC2).
+    clear He. fold kN in Hpc2.
+    assert (Hin1 : in_loop_ok true (Some (K + 1))) by (intros _; exists (K + 1); reflexivity).
+    assert (Hiter : forall f ss1 sx sg ssx lv names r,
+              (f <= fuel0)%nat -> sim ss1 sx -> m_pc sx = P0 + 1 + kN -> m_frames sx = FLoop lv d :: r -> erase r = erase (m_frames s) ->
+              lv_get lv LV_COUNTER = Some (VInt (Z.of_nat (length names))) -> idx_ok ov idx lv -> m_stack sx = names ++ m_stack s ->
+              iterate rt mt f false ss1 None (Some (VInt (Z.of_nat (length names)))) idx (Some (x, names)) a = ROk sg ssx ->
+              sg = SigNormal /\ exists n sy evs, esteps n im sx = Some (sy, evs) /\ sim ssx sy /\ m_pc sy = P0 + (kN + kB + K + 9) /\
+                                          (m_stack sy, fr sy) = (m_stack s, fr s) /\ rev (s_trace ssx) = rev (s_trace ss1) ++ evs).
+    { induction f as [|f IHf]; intros ss1 sx sg ssx lv names r Hlef Hsx Hpcx Hfrx Herx Hlvx Hidx Hstx Hit; [discriminate|].
+      rewrite iterate_lights in Hit.
+      set (c0 := VInt (Z.of_nat (length names))) in *.
+      destruct (positive c0) as [go|e] eqn:Epos; cbn [lift_res sbind] in Hit; [|discriminate].
+      assert (HcTx : code_at im (m_pc sx) counter_test) by (rewrite Hpcx; exact HcT).
+      destruct (counter_test_steps im sx lv d r c0 go Hfrx Hlvx Epos HcTx) as (res & Et & Hres).
+      set (s3 := put_vm sx (DReg R_RESULT) res 4) in *.
+      assert (Hs3 : sim ss1 s3) by (apply sim_put_reg_hidden; [exact Hsx|reflexivity|reflexivity]).
+      assert (Hr3 : rf_get (m_regs s3) R_RESULT = Some res) by (unfold s3; cbn [put_vm m_regs]; apply rf_get_set_same).
+      assert (Hpc3 : m_pc s3 = P0 + 1 + kN + 4) by (unfold s3; cbn [put_vm m_pc]; rewrite Hpcx; reflexivity).
+      assert (Hfj3 : fetch im (m_pc s3) = Some (jump JC_IF_FALSE (1 + kB + K + 2))) by (rewrite Hpc3; exact Hfj).
+      pose proof (jump_if_false im s3 res (1 + kB + K + 2) Hr3 Hfj3) as Ej. rewrite Hres in Ej.
+      destruct go; cbn [negb] in Hit.
+      - (* a pass: the next name goes into x *)
+        pose proof (positive_len names Epos) as Hne. destruct names as [|v rest]; [contradiction|]. cbv beta iota zeta in Hit.
+        destruct (Sem.exec rt mt f false (assign ss1 x v) a) as [sgb sb|eb sb|sb] eqn:Eb; cbn [sbind] in Hit; try discriminate.
+        set (s4 := with_pc s3 (m_pc s3 + 1)) in *.
+        assert (Hs4 : sim ss1 s4) by (apply sim_with_pc; exact Hs3).
+        assert (Hfp4 : fetch im (m_pc s4) = Some (I1 OC_POP (PStr x))) by (unfold s4; cbn [with_pc m_pc]; rewrite Hpc3; exact Hfp).
+        assert (Hst4 : m_stack s4 = v :: (rest ++ m_stack s)) by exact Hstx.
+        assert (Hfr4 : m_frames s4 = FLoop lv d :: r) by exact Hfrx.
+        destruct (pop_var_step im ss1 s4 x v (rest ++ m_stack s) lv d r Hs4 Hfp4 Hst4 Hfr4) as (s5 & r5 & E5 & Hs5 & Hpc5 & Hfr5 & Her5 & Hst5).
+        assert (Hpc5' : m_pc s5 = P0 + 1 + kN + 4 + 1 + 1) by (rewrite Hpc5; unfold s4; cbn [with_pc m_pc]; rewrite Hpc3; reflexivity).
+        assert (HcB5 : code_at im (m_pc s5) B) by (rewrite Hpc5'; exact HcB).
+        assert (Hir5 : in_ret_ok false (m_frames s5)) by (intros H; discriminate).
+        assert (Hd5 : in_depth_ok false s5) by (intros H; discriminate).
+        destruct (assign_other_fields ss1 x v) as (_ & _ & Htrx).
+        destruct (IHa (Some (K + 1)) im (assign ss1 x v) s5 sgb sb f ltac:(lia) Hload Hin1 Hir5 Hd5 Hs5 HcB5 Eb)
+          as [[Hsgb (n6 & s6 & e6 & E6 & Hs6 & Hpc6 & Hst6 & Ht6)]|[[Hsgb (a' & Ha' & (n6 & s6 & e6 & E6 & Hs6 & Hpc6 & Hst6 & Ht6))]|[Hinr _]]]; [| |discriminate Hinr]; subst sgb.
+        + (* the body ends normally: count down, step the `with` variable, back to the test *)
+          destruct (sub1 c0) as [c1|e] eqn:Esub; cbn [bind] in Hit; [|discriminate].
+          pose proof (sub1_len v rest c1 Esub) as Hc1. subst c1.
+          destruct (idx_step sb idx) as [ssn|e] eqn:Estep; [|discriminate].
+          destruct (loop_frame_kept_any s6 s5 lv d r5 Hst6 Hfr5) as [Hsk6 (r6 & Hfr6 & Her6)].
+          assert (Hpc6' : m_pc s6 = P0 + 1 + kN + 4 + 1 + 1 + kB) by (rewrite Hpc6, Hpc5'; fold B; fold kB; reflexivity).
+          assert (HcP6 : code_at im (m_pc s6) (counter_post ov)) by (rewrite Hpc6'; exact HcP).
+          destruct (light_post_steps im sb s6 ov idx lv d r6 c0 _ ssn Hs6 Hfr6 Hlvx Hidx Esub Estep HcP6)
+            as (n7 & s7 & lv7 & r7 & E7 & Hs7 & Hpc7 & Hfr7 & Her7 & Hsk7 & HlC7 & Hidx7 & Htr7).
+          fold K in Hpc7.
+          assert (Hfjb7 : fetch im (m_pc s7) = Some (jump JC_ALWAYS (- (4 + 1 + (1 + kB + K))))).
+          { rewrite Hpc7, Hpc6'. replace (P0 + 1 + kN + 4 + 1 + 1 + kB + K) with (P0 + 1 + kN + 4 + 1 + (1 + kB + K)) by lia. exact Hfjb. }
+          pose proof (jump_always im s7 (- (4 + 1 + (1 + kB + K))) Hfjb7) as Ejb.
+          set (s8 := with_pc s7 (m_pc s7 + - (4 + 1 + (1 + kB + K)))) in *.
+          assert (E48 : esteps (4 + (1 + (1 + (n6 + (n7 + 1))))) im sx = Some (s8, [] ++ ([] ++ ([] ++ (e6 ++ ([] ++ [])))))).
+          { eapply esteps_app; [exact Et|eapply esteps_app; [exact Ej|eapply esteps_app; [exact E5|eapply esteps_app; [exact E6|eapply esteps_app; [exact E7|exact Ejb]]]]]. }
+          destruct (IHf ssn s8 sg ssx lv7 rest r7 ltac:(lia) (sim_with_pc _ s7 _ Hs7)) as [Hsg (n9 & s9 & e9 & E9 & Hs9 & Hpc9 & Hst9 & Ht9)].
+          { unfold s8. cbn [with_pc m_pc]. rewrite Hpc7, Hpc6'. lia. }
+          { exact Hfr7. }
+          { rewrite Her7, Her6, Her5. exact Herx. }
+          { exact HlC7. }
+          { exact Hidx7. }
+          { unfold s8. cbn [with_pc m_stack]. rewrite Hsk7, Hsk6. exact Hst5. }
+          { exact Hit. }
+          split; [exact Hsg|]. exists ((4 + (1 + (1 + (n6 + (n7 + 1))))) + n9)%nat, s9, (([] ++ ([] ++ ([] ++ (e6 ++ ([] ++ []))))) ++ e9).
+          split; [eapply esteps_app; [exact E48|exact E9]|].
+          split; [exact Hs9|]. split; [exact Hpc9|]. split; [exact Hst9|]. cbn [app]. rewrite Ht9, Htr7, Ht6, Htrx, app_nil_r, app_assoc. reflexivity.
+        + (* the body breaks: END_LOOP drops the names not yet visited *)
+          assert (Ha'' : a' = K + 1) by (injection Ha' as H; rewrite <- H; reflexivity). clear Ha'. subst a'. injection Hit as Hsg Hss. subst ssx.
+          destruct (loop_frame_kept_any s6 s5 lv d r5 Hst6 Hfr5) as [Hsk6 (r6 & Hfr6 & Her6)].
+          assert (Hfe6 : fetch im (m_pc s6) = Some (I0 OC_END_LOOP)).
+          { rewrite Hpc6, Hpc5'. fold B. fold kB.
+            replace (P0 + 1 + kN + 4 + 1 + 1 + kB + (K + 1)) with (P0 + 1 + kN + 4 + 1 + (1 + kB + K) + 1) by lia. exact Hfe. }
+          assert (Her6' : erase r6 = erase (m_frames s)) by (rewrite Her6, Her5; exact Herx).
+          assert (Hsk6' : m_stack s6 = rest ++ m_stack s) by (rewrite Hsk6; exact Hst5).
+          destruct (end_loop_step_extra im sb s6 s lv r6 rest Hs6 Hfe6 Hfr6 Her6' Hsk6') as (s7 & E7 & Hs7 & Hpc7 & Hst7).
+          split; [auto|]. exists (4 + (1 + (1 + (n6 + 1))))%nat, s7, ([] ++ ([] ++ ([] ++ (e6 ++ [])))).
+          split; [eapply esteps_app; [exact Et|eapply esteps_app; [exact Ej|eapply esteps_app; [exact E5|eapply esteps_app; [exact E6|exact E7]]]]|].
+          split; [exact Hs7|]. split; [rewrite Hpc7, Hpc6, Hpc5'; fold B; fold kB; lia|].
+          split; [exact Hst7|]. cbn [app]. rewrite app_nil_r, Ht6, Htrx. reflexivity.
+      - (* no name is left *)
+        injection Hit as Hsg Hss. subst ssx.
+        set (s4 := with_pc s3 (m_pc s3 + (1 + kB + K + 2))) in *.
+        assert (Hfe4 : fetch im (m_pc s4) = Some (I0 OC_END_LOOP)).
+        { unfold s4. cbn [with_pc m_pc]. rewrite Hpc3. replace (P0 + 1 + kN + 4 + (1 + kB + K + 2)) with (P0 + 1 + kN + 4 + 1 + (1 + kB + K) + 1) by lia. exact Hfe. }
+        destruct (end_loop_step_extra im ss1 s4 s lv r names (sim_with_pc ss1 s3 _ Hs3) Hfe4 Hfrx Herx Hstx) as (s5 & E5 & Hs5 & Hpc5 & Hst5).
+        split; [auto|]. exists (4 + (1 + 1))%nat, s5, ([] ++ ([] ++ [])).
+        split; [eapply esteps_app; [exact Et|eapply esteps_app; [exact Ej|exact E5]]|].
+        split; [exact Hs5|]. split; [rewrite Hpc5; unfold s4; cbn [with_pc m_pc]; rewrite Hpc3; lia|].
+        split; [exact Hst5|]. rewrite app_nil_r. reflexivity. }
+    destruct (Hiter f' ssp s2 sig ss' lv2 names0 r2 ltac:(lia) Hs2) as [Hsig (n & sy & evs & En & Hsy & Hpcy & Hsty & Hty)].
+    { rewrite Hpc2. unfold s1. cbn [advance with_pc with_frames with_vars m_pc]. fold P0. lia. }
+    { exact Hfk2. }
+    { exact Her2. }
+    { exact HlC2. }
+    { exact Hidx2. }
+    { exact Hsk2. }
+    { exact He'. }
+    left. split; [exact Hsig|]. exists (1 + (nN + n))%nat, sy, ([] ++ ([] ++ evs)).
+    split; [eapply esteps_app; [exact E1|eapply esteps_app; [exact HnN|exact En]]|]. split; [exact Hsy|].
+    split; [rewrite Hpcy; unfold K, kN, kB, zlength; rewrite !app_length; cbn [length]; rewrite !Nat2Z.inj_add; change (Z.of_nat (length counter_test)) with 4; lia|].
+    split; [exact Hsty|]. rewrite Hty, Htr0. reflexivity.
   - (* empty sequence *)
     intros inl inr after im ss s sig ss' fuel Hle _ _ _ _ Hsim Hc He. destruct fuel as [|fuel]; [discriminate|]. rewrite exec_seq_nil in He.
     injection He as Hsig He. subst ss'. left. split; [auto|]. rewrite c_block_nil. unfold zlength. cbn [length]. rewrite Z.add_0_r.
@@ -997,31 +1131,31 @@ Proof.
     destruct (Sem.exec rt mt fuel false ss st) as [sg sa|e sa|sa] eqn:Est; cbn [sbind] in He; try discriminate.
     apply code_at_app in Hc. destruct Hc as [Hc1 Hc2].
     assert (Hlen : zlength (first ++ rest) = zlength first + zlength rest) by (unfold zlength; rewrite app_length, Nat2Z.inj_add; reflexivity).
-    destruct (IHst after_st im ss s sg sa fuel ltac:(lia) Hload (in_loop_ok_map inl after _ Hin) Hir Hd Hsim Hc1 Est) as [[Hsg (n1 & s1 & e1 & E1 & Hs1 & Hpc1 & Hst1 & Ht1)]|[[Hsg (a' & Ha' & Hto)]|[v [Hsg Hret]]]].
+    destruct (IHst after_st im ss s sg sa fuel ltac:(lia) Hload (in_loop_ok_map inl after _ Hin) Hir Hd Hsim Hc1 Est) as [[Hsg (n1 & s1 & e1 & E1 & Hs1 & Hpc1 & Hst1 & Ht1)]|[[Hsg (a' & Ha' & Hto)]|[Hinr [v [Hsg Hret]]]]].
     + subst sg.
       assert (Hc2' : code_at im (m_pc s1) rest) by (rewrite Hpc1; exact Hc2).
       destruct (fr_eq_facts s1 s Hst1) as [Hsk1 [Hct1 Hdp1]].
       assert (Hir1 : in_ret_ok inr (m_frames s1)) by (intros Hi; destruct (Hir Hi) as (ret & F & H); exists ret, F; rewrite Hct1; exact H).
-      assert (Hd1 : depth_ok (m_frames s1) (zlength (m_stack s1))) by (rewrite Hsk1; apply Hdp1; exact Hd).
+      assert (Hd1 : in_depth_ok inr s1) by (intros Hi; rewrite Hsk1; apply Hdp1; exact (Hd Hi)).
       pose proof (IHr after im sa s1 sig ss' fuel ltac:(lia) Hload Hin Hir1 Hd1 Hs1 Hc2' He) as Ho.
-      apply (outcome_after_steps after im ss s sa s1 n1 e1 sig ss' rest); [exact E1|exact Hst1|exact Ht1| |exact Ho].
+      apply (outcome_after_steps inr after im ss s sa s1 n1 e1 sig ss' rest); [exact E1|exact Hst1|exact Ht1| |exact Ho].
       rewrite Hpc1, Hlen. unfold first. ring.
     + subst sg. injection He as Hsig Hss. subst sig ss'.
       right. left. split; [reflexivity|]. unfold after_st in Ha'. destruct after as [a0|]; cbn [option_map] in Ha'; [|discriminate]. injection Ha' as Ha'. subst a'.
       exists a0. split; [reflexivity|]. rewrite Hlen.
       replace (m_pc s + (zlength first + zlength rest) + a0) with (m_pc s + zlength first + (a0 + zlength rest)) by ring. exact Hto.
-    + subst sg. injection He as Hsig Hss. subst sig ss'. right. right. exists v. split; [reflexivity|exact Hret].
+    + subst sg. injection He as Hsig Hss. subst sig ss'. right. right. split; [exact Hinr|]. exists v. split; [reflexivity|exact Hret].
 Qed.
 
 Theorem simpleB_simulation : bodies_ok ->
   (forall inl inr st, SimpleB inl inr st ->
      forall after im ss s sig ss' fuel, routines_loaded im -> in_loop_ok inl after -> in_ret_ok inr (m_frames s) ->
-     depth_ok (m_frames s) (zlength (m_stack s)) -> sim ss s -> code_at im (m_pc s) (c_stmt rt mt false after st) ->
-     Sem.exec rt mt fuel false ss st = ROk sig ss' -> outcome after im ss s sig ss' (c_stmt rt mt false after st)) /\
+     in_depth_ok inr s -> sim ss s -> code_at im (m_pc s) (c_stmt rt mt false after st) ->
+     Sem.exec rt mt fuel false ss st = ROk sig ss' -> outcome inr after im ss s sig ss' (c_stmt rt mt false after st)) /\
   (forall inl inr l, SimpleBL inl inr l ->
      forall after im ss s sig ss' fuel, routines_loaded im -> in_loop_ok inl after -> in_ret_ok inr (m_frames s) ->
-     depth_ok (m_frames s) (zlength (m_stack s)) -> sim ss s -> code_at im (m_pc s) (c_stmt rt mt false after (SBlock l)) ->
-     exec_seq rt mt fuel false ss l = ROk sig ss' -> outcome after im ss s sig ss' (c_stmt rt mt false after (SBlock l))).
+     in_depth_ok inr s -> sim ss s -> code_at im (m_pc s) (c_stmt rt mt false after (SBlock l)) ->
+     exec_seq rt mt fuel false ss l = ROk sig ss' -> outcome inr after im ss s sig ss' (c_stmt rt mt false after (SBlock l))).
 Proof.
   intros Hbodies. split.
   - intros inl inr st Hst after im ss s sig ss' fuel. exact (proj1 (simpleB_simulation_upto Hbodies fuel) inl inr st Hst after im ss s sig ss' fuel (le_n _)).
@@ -1036,7 +1170,7 @@ End Sim3.
 Theorem structured_control_leads_where_the_source_says :
   forall rt mt, bodies_ok rt mt -> forall inl inr st, SimpleB rt mt inl inr st ->
   forall after im ss s sig ss' fuel, routines_loaded rt mt im -> in_loop_ok inl after -> in_ret_ok inr (m_frames s) ->
-  depth_ok (m_frames s) (zlength (m_stack s)) -> sim ss s -> code_at im (m_pc s) (c_stmt rt mt false after st) ->
+  in_depth_ok inr s -> sim ss s -> code_at im (m_pc s) (c_stmt rt mt false after st) ->
   Sem.exec rt mt fuel false ss st = ROk sig ss' ->
   (sig = SigNormal /\ exists n s' evs, esteps n im s = Some (s', evs) /\ m_pc s' = m_pc s + zlength (c_stmt rt mt false after st) /\
                                        (m_stack s', fr s') = (m_stack s, fr s)) \/
@@ -1048,7 +1182,7 @@ Theorem structured_control_leads_where_the_source_says :
 Proof.
   intros rt mt Hbodies inl inr st Hst after im ss s sig ss' fuel Hload Hin Hir Hd Hsim Hc He.
   destruct (proj1 (simpleB_simulation rt mt Hbodies) inl inr st Hst after im ss s sig ss' fuel Hload Hin Hir Hd Hsim Hc He)
-    as [[Hsig (n & s' & evs & E & _ & Hpc & Hsf & _)]|[[Hsig (a & Ha & n & s' & evs & E & _ & Hpc & Hsf & _)]|[v [Hsig (ret & F & Hct & n & s' & evs & E & _ & Hpc & Hfr & Hsk & _)]]]].
+    as [[Hsig (n & s' & evs & E & _ & Hpc & Hsf & _)]|[[Hsig (a & Ha & n & s' & evs & E & _ & Hpc & Hsf & _)]|[_ [v [Hsig (ret & F & Hct & n & s' & evs & E & _ & Hpc & Hfr & Hsk & _)]]]]].
   - left. split; [exact Hsig|]. exists n, s', evs. split; [exact E|]. split; [exact Hpc|exact Hsf].
   - right. left. split; [exact Hsig|]. exists a, n, s', evs. split; [exact Ha|]. split; [exact E|]. split; [exact Hpc|exact Hsf].
   - right. right. exists v. split; [exact Hsig|]. exists ret, F, n, s', evs. repeat split; assumption.
@@ -1060,10 +1194,10 @@ Qed.
 Theorem indexed_loop_simulation :
   forall rt mt, bodies_ok rt mt -> forall (inr : bool) l v pre body, idx_form rt mt l v pre -> SimpleB rt mt true inr body ->
   forall after im ss s sig ss' fuel, routines_loaded rt mt im -> in_ret_ok inr (m_frames s) ->
-  depth_ok (m_frames s) (zlength (m_stack s)) -> sim ss s ->
+  in_depth_ok inr s -> sim ss s ->
   code_at im (m_pc s) (c_stmt rt mt false after (SRepeat l body)) ->
   Sem.exec rt mt fuel false ss (SRepeat l body) = ROk sig ss' ->
-  outcome after im ss s sig ss' (c_stmt rt mt false after (SRepeat l body)).
+  outcome inr after im ss s sig ss' (c_stmt rt mt false after (SRepeat l body)).
 Proof.
   intros rt mt Hbodies inr l v pre body Hform Hbody after im ss s sig ss' fuel Hload Hir Hd Hsim Hc He.
   assert (Hil : in_loop_ok false after) by (intros H; discriminate).
@@ -1074,31 +1208,48 @@ Qed.
 Theorem range_loop_simulation :
   forall rt mt, bodies_ok rt mt -> forall (inr : bool) v a b body, plain_rval mt a = true -> plain_rval mt b = true -> SimpleB rt mt true inr body ->
   forall after im ss s sig ss' fuel, routines_loaded rt mt im -> in_ret_ok inr (m_frames s) ->
-  depth_ok (m_frames s) (zlength (m_stack s)) -> sim ss s ->
+  in_depth_ok inr s -> sim ss s ->
   code_at im (m_pc s) (c_stmt rt mt false after (SRepeat (LRange v a b) body)) ->
   Sem.exec rt mt fuel false ss (SRepeat (LRange v a b) body) = ROk sig ss' ->
-  outcome after im ss s sig ss' (c_stmt rt mt false after (SRepeat (LRange v a b) body)).
+  outcome inr after im ss s sig ss' (c_stmt rt mt false after (SRepeat (LRange v a b) body)).
 Proof. intros rt mt Hbodies inr v a b body Ha Hb. exact (indexed_loop_simulation rt mt Hbodies inr _ _ _ body (range_idx_form rt mt v a b Ha Hb)). Qed.
 
 (* repeat n with v from a to b: n values, the step (b - a) / (n - 1), or 0 when n is 1 *)
 Theorem interpolating_loop_simulation :
   forall rt mt, bodies_ok rt mt -> forall (inr : bool) n v a b body, plain_rval mt n = true -> plain_rval mt a = true -> plain_rval mt b = true -> SimpleB rt mt true inr body ->
   forall after im ss s sig ss' fuel, routines_loaded rt mt im -> in_ret_ok inr (m_frames s) ->
-  depth_ok (m_frames s) (zlength (m_stack s)) -> sim ss s ->
+  in_depth_ok inr s -> sim ss s ->
   code_at im (m_pc s) (c_stmt rt mt false after (SRepeat (LCountWith n (WRange v a b)) body)) ->
   Sem.exec rt mt fuel false ss (SRepeat (LCountWith n (WRange v a b)) body) = ROk sig ss' ->
-  outcome after im ss s sig ss' (c_stmt rt mt false after (SRepeat (LCountWith n (WRange v a b)) body)).
+  outcome inr after im ss s sig ss' (c_stmt rt mt false after (SRepeat (LCountWith n (WRange v a b)) body)).
 Proof. intros rt mt Hbodies inr n v a b body Hn Ha Hb. exact (indexed_loop_simulation rt mt Hbodies inr _ _ _ body (cw_range_idx_form rt mt n v a b Hn Ha Hb)). Qed.
 
 (* repeat n with v cycle [start]: n values, the step a full turn (360, or 65536 in raw units) / n, from start or 0 *)
 Theorem cycle_loop_simulation :
   forall rt mt, bodies_ok rt mt -> forall (inr : bool) n v start body, plain_rval mt n = true -> plain_opt mt start = true -> SimpleB rt mt true inr body ->
   forall after im ss s sig ss' fuel, routines_loaded rt mt im -> in_ret_ok inr (m_frames s) ->
-  depth_ok (m_frames s) (zlength (m_stack s)) -> sim ss s ->
+  in_depth_ok inr s -> sim ss s ->
   code_at im (m_pc s) (c_stmt rt mt false after (SRepeat (LCountWith n (WCycle v start)) body)) ->
   Sem.exec rt mt fuel false ss (SRepeat (LCountWith n (WCycle v start)) body) = ROk sig ss' ->
-  outcome after im ss s sig ss' (c_stmt rt mt false after (SRepeat (LCountWith n (WCycle v start)) body)).
+  outcome inr after im ss s sig ss' (c_stmt rt mt false after (SRepeat (LCountWith n (WCycle v start)) body)).
 Proof. intros rt mt Hbodies inr n v start body Hn Ha. exact (indexed_loop_simulation rt mt Hbodies inr _ _ _ body (cw_cycle_idx_form rt mt n v start Hn Ha)). Qed.
+
+(* loops over lights (C04): `repeat all as x`, `repeat group as g`, `repeat location as l`, each with or without a `with` clause:
+   the preparation code pushes the names -- for every population, an empty name included -- and counts them; every pass binds the
+   next name, in name order, each exactly once; the body may break (the names not yet visited go with the loop frame) but not return *)
+Theorem light_loop_simulation :
+  forall rt mt, bodies_ok rt mt -> forall l x ov pre body, light_form rt mt l x ov pre -> SimpleB rt mt true false body ->
+  forall after im ss s sig ss' fuel, routines_loaded rt mt im -> sim ss s ->
+  code_at im (m_pc s) (c_stmt rt mt false after (SRepeat l body)) ->
+  Sem.exec rt mt fuel false ss (SRepeat l body) = ROk sig ss' ->
+  outcome false after im ss s sig ss' (c_stmt rt mt false after (SRepeat l body)).
+Proof.
+  intros rt mt Hbodies l x ov pre body Hform Hbody after im ss s sig ss' fuel Hload Hsim Hc He.
+  assert (Hil : in_loop_ok false after) by (intros H; discriminate).
+  assert (Hir : in_ret_ok false (m_frames s)) by (intros H; discriminate).
+  assert (Hd : in_depth_ok false s) by (intros H; discriminate).
+  exact (proj1 (simpleB_simulation rt mt Hbodies) false false _ (B_lights rt mt false false l x ov pre body Hform Hbody) after im ss s sig ss' fuel Hload Hil Hir Hd Hsim Hc He).
+Qed.
 
 (* a call: the arguments are evaluated in the caller's scope, the body runs with the parameters as its own variables (by
    value: assigning to one changes the routine's dictionary only), and afterwards the machine is behind the call with the
@@ -1107,14 +1258,15 @@ Proof. intros rt mt Hbodies inr n v start body Hn Ha. exact (indexed_loop_simula
 Theorem call_simulation :
   forall rt mt, bodies_ok rt mt -> forall f args b d, builtin_params f builtin_table = None -> find_rdef rt f = Some d ->
   plain_args mt args (rd_params d) = true ->
-  forall after im ss s sig ss' fuel, routines_loaded rt mt im -> depth_ok (m_frames s) (zlength (m_stack s)) -> sim ss s ->
+  forall after im ss s sig ss' fuel, routines_loaded rt mt im -> sim ss s ->
   code_at im (m_pc s) (c_stmt rt mt false after (SCall f args b)) ->
   Sem.exec rt mt fuel false ss (SCall f args b) = ROk sig ss' ->
   sig = SigNormal /\
   exists n s' evs, esteps n im s = Some (s', evs) /\ sim ss' s' /\ m_pc s' = m_pc s + zlength (c_stmt rt mt false after (SCall f args b)) /\
                    (m_stack s', fr s') = (m_stack s, fr s) /\ rev (s_trace ss') = rev (s_trace ss) ++ evs.
 Proof.
-  intros rt mt Hbodies f args b d Hb Hf Hpl after im ss s sig ss' fuel Hload Hd Hsim Hc He.
+  intros rt mt Hbodies f args b d Hb Hf Hpl after im ss s sig ss' fuel Hload Hsim Hc He.
+  assert (Hd : in_depth_ok false s) by (intros H; discriminate).
   assert (Hsig : sig = SigNormal).
   { destruct fuel as [|fuel]; [discriminate|]. rewrite exec_call in He.
     destruct (call rt mt fuel false ss f args) as [v s1|e s1|s1]; cbn [sbind] in He; try discriminate. injection He as <- _. reflexivity. }
@@ -1122,7 +1274,7 @@ Proof.
   assert (Hir : in_ret_ok false (m_frames s)) by (intros H; discriminate).
   assert (Hin : in_loop_ok false after) by (intros H; discriminate).
   destruct (proj1 (simpleB_simulation rt mt Hbodies) false false (SCall f args b) (B_call rt mt false false f args b d Hb Hf Hpl) after im ss s SigNormal ss' fuel Hload
-              Hin Hir Hd Hsim Hc He) as [[_ Hto]|[[H _]|[v [H _]]]]; try discriminate.
+              Hin Hir Hd Hsim Hc He) as [[_ Hto]|[[H _]|[_ [v [H _]]]]]; try discriminate.
   exact Hto.
 Qed.
 
@@ -1153,6 +1305,9 @@ Fixpoint simpleB_b (fuel : nat) (inl inr : bool) (st : stmt) : bool :=
       | SRepeat (LRange v x y) a => plain_rval mt x && plain_rval mt y && simpleB_b f true inr a
       | SRepeat (LCountWith n (WRange v x y)) a => plain_rval mt n && plain_rval mt x && plain_rval mt y && simpleB_b f true inr a
       | SRepeat (LCountWith n (WCycle v start)) a => plain_rval mt n && plain_opt mt start && simpleB_b f true inr a
+      | SRepeat (LAll x w) a => plain_with_opt mt w && simpleB_b f true false a
+      | SRepeat (LGroups x w) a => plain_with_opt mt w && simpleB_b f true false a
+      | SRepeat (LLocations x w) a => plain_with_opt mt w && simpleB_b f true false a
       | _ => false
       end
   end.
@@ -1184,6 +1339,9 @@ Proof.
         apply (B_idx rt mt inl inr _ _ _ _ (cw_range_idx_form rt mt _ _ _ _ Hn Hx Hy)). apply IH. exact Ha.
       * apply andb_true_iff in H. destruct H as [H Ha]. apply andb_true_iff in H. destruct H as [Hn Hx].
         apply (B_idx rt mt inl inr _ _ _ _ (cw_cycle_idx_form rt mt _ _ _ Hn Hx)). apply IH. exact Ha.
+    + apply andb_true_iff in H. destruct H as [Hw Ha]. apply (B_lights rt mt inl inr _ _ _ _ _ (lall_form rt mt _ _ Hw)). apply IH. exact Ha.
+    + apply andb_true_iff in H. destruct H as [Hw Ha]. apply (B_lights rt mt inl inr _ _ _ _ _ (lgroups_form rt mt _ _ Hw)). apply IH. exact Ha.
+    + apply andb_true_iff in H. destruct H as [Hw Ha]. apply (B_lights rt mt inl inr _ _ _ _ _ (llocations_form rt mt _ _ Hw)). apply IH. exact Ha.
   - subst inl. apply B_break.
   - apply B_block. clear Ea. induction ss as [|x r IHr]; [constructor|]. cbn [forallb] in H. apply andb_true_iff in H. destruct H as [Hx Hr].
     constructor; [apply IH; exact Hx|apply IHr; exact Hr].
